@@ -171,6 +171,32 @@ func domRecheck(r *engine.Run, rule string) {
 		return
 	}
 	hashParam := ssa.Value(f.Params[2])
+	// the walk may live in a helper of Get: the member of Get's group that looks links up is
+	// what is judged, with the parameter that receives the queried hash
+	{
+		top := f
+		group := opGroup(r, top)
+		for _, g := range group[1:] {
+			has := false
+			engine.Instrs(g, func(in ssa.Instruction) {
+				if c, ok := in.(*ssa.Call); ok && (lruCallOnField(c, "Get", "hashCache") || lruCallOnField(c, "Peek", "hashCache")) {
+					has = true
+				}
+			})
+			if !has {
+				continue
+			}
+			for _, e := range r.P.RepoCG().In[g] {
+				if c, ok := e.Site.(ssa.CallInstruction); ok {
+					for i, a := range c.Common().Args {
+						if a == ssa.Value(top.Params[2]) && i < len(g.Params) {
+							f, hashParam = g, g.Params[i]
+						}
+					}
+				}
+			}
+		}
+	}
 	var links, memos, rechecks []*ssa.Call
 	badAdd := ""
 	engine.Instrs(f, func(in ssa.Instruction) {
